@@ -182,6 +182,7 @@ func c02(c *core.Ctx) {
 	c.Rule("C02.rec", "every call-graph cycle through Decode methods carries a depth counter that is compared with a constant on the cycle (unbounded nesting overflows the stack)", 1)
 	c.Rule("C02.bounds", "every slice expression in the decoders with a non-constant bound is in bounds: a cursor that accumulates decoder-consumed byte counts stays within the input, ReadN(n) slices are guarded by n <= len, and n is non-negative at every call site of ReadN on the analysed architecture", 6)
 
+	c02Sticky(c)
 	for _, cfg := range []struct {
 		p    *load.Program
 		arch string
@@ -985,4 +986,54 @@ func splitPrecondition(c *core.Ctx, p *load.Program, f *ssa.Function, step ssa.V
 		}
 	}
 	return true, "split is called only with dimensions whose overflow-free product equals the number of values and which are all >= 1 (C02.mul, C02.dims, equality dominates the call): (j-i) >= dims[level]"
+}
+
+// c02Sticky: once a Buffer has failed, every further Read on it is O(1).
+//
+// Decoders loop up to 65535 times over `buf.ReadStruct(elem)` without looking at buf.Error(); that is cheap only because
+// a failed Buffer answers every Read immediately. If a Read method runs a nested decoder before it looks at the sticky
+// error, a truncated input with nested arrays costs 65535^depth decoder calls: a 15-byte input never returns.
+// Obligation: in every Read* method of ua.Buffer, each call that can run a decoder (an interface Decode, ua.Decode /
+// decode, or another Read* of a Buffer other than the receiver) and each loop is dominated by `b.err == nil`.
+func c02Sticky(c *core.Ctx) {
+	c.Rule("C02.sticky", "in every Read* method of ua.Buffer every call that can run a nested decoder, and every loop, executes only when the sticky error is nil (`b.err != nil` → return dominates it): a failed buffer answers each further Read in constant time, so the 65535-iteration element loops of the decoders stay linear on truncated input", 1)
+	errF := field(c, "ua", "Buffer", "err")
+	if errF == nil {
+		return
+	}
+	n := 0
+	for _, f := range libFns(c, "ua") {
+		if recvName(f) != "Buffer" || len(f.Name()) < 5 || f.Name()[:4] != "Read" || f.Parent() != nil {
+			continue
+		}
+		guardedAt := func(in ssa.Instruction) bool {
+			for _, fact := range ssax.FactsAt(in) {
+				if fact.Op == token.EQL && ssax.IsNil(fact.Y) && loadedField(fact.X).f == errF {
+					return true
+				}
+			}
+			return false
+		}
+		for _, call := range ssax.Calls(f) {
+			cc := call.Common()
+			name := ""
+			if cc.IsInvoke() {
+				name = cc.Method.Name()
+			} else if cal := ssax.Callee(call); cal != nil {
+				name = cal.Name()
+			}
+			if name != "Decode" && name != "decode" {
+				continue
+			}
+			n++
+			ok := guardedAt(call)
+			c.Ob("C02.sticky", fname(f)+"·nested "+name, pos(c, call), ok, "runs only when the buffer has not failed yet: "+boolStr(ok))
+		}
+		for _, l := range ssax.Loops(f) {
+			n++
+			ok := guardedAt(l.Header.Instrs[0])
+			c.Ob("C02.sticky", fname(f)+"·loop", pos(c, l.Header.Instrs[len(l.Header.Instrs)-1]), ok, "loop entered only when the buffer has not failed yet: "+boolStr(ok))
+		}
+	}
+	c.Count("nested decoder calls and loops in Buffer.Read* methods", n)
 }
